@@ -610,6 +610,19 @@ func NewRaft(conf *Config, fsm FSM, logs LogStore, stable StableStore, snaps Sna
 	// Scan through the log for any configuration change entries.
 	snapshotIndex, _ := r.getLastSnapshot()
 	lastappliedIndex := r.getLastApplied()
+	// The entries that restoreFromCommittedLogs replayed into the FSM lie at or
+	// below the last applied index, where the scan below does not look: pick
+	// up the configuration changes among them first.
+	for index := snapshotIndex + 1; index <= min(lastappliedIndex, lastLog.Index); index++ {
+		var entry Log
+		if err := r.logs.GetLog(index, &entry); err != nil {
+			r.logger.Error("failed to get log", "index", index, "error", err)
+			panic(err)
+		}
+		if err := r.processConfigurationLogEntry(&entry); err != nil {
+			return nil, err
+		}
+	}
 	for index := max(snapshotIndex, lastappliedIndex) + 1; index <= lastLog.Index; index++ {
 		var entry Log
 		if err := r.logs.GetLog(index, &entry); err != nil {
